@@ -236,6 +236,7 @@ type kase struct {
 	N           int               `json:"n"`
 	SelfInPeers bool              `json:"self_in_peers"`
 	DeadPeer    bool              `json:"dead_peer"` // the peer lists also name a peer nobody listens for
+	Late        []int             `json:"late"`      // nodes that are down at the start; event ["up", j] starts them
 	Events      []json.RawMessage `json:"events"`
 }
 
@@ -305,6 +306,17 @@ func (r *run) takeSnaps() ([]snap, int) {
 	out := make([]snap, len(r.nodes))
 	q := 0
 	for i, n := range r.nodes {
+		if n == nil { // not started yet: the initial state
+			var zero interface{} = []int64{}
+			if r.k.Type == "gcounter" {
+				zero = int64(0)
+			}
+			out[i] = snap{V: zero, S: zero}
+			if r.k.Type == "gcounter" {
+				out[i].VE, out[i].SE = map[string]int64{}, map[string]int64{}
+			}
+			continue
+		}
 		st := resources.VerifCRDTSnapshot(n)
 		out[i] = snap{V: readOf(r.k.Type, st.Value), S: readOf(r.k.Type, st.Stable), H: st.HasOld, Need: st.Need}
 		if r.k.Type == "gcounter" {
@@ -525,7 +537,11 @@ func runCase(k kase) (res result) {
 	}
 	r.nodes = make([]distsys.ArchetypeResource, k.N)
 	r.cl = make([]*rpc.Client, k.N)
-	for i := 0; i < k.N; i++ {
+	late := map[int]bool{}
+	for _, j := range k.Late {
+		late[j] = true
+	}
+	start := func(i int) {
 		var peers []tla.Value
 		for j := 0; j < k.N; j++ {
 			if j != i || k.SelfInPeers {
@@ -541,6 +557,11 @@ func runCase(k kase) (res result) {
 			resources.WithCRDTDialTimeout(500*time.Millisecond),
 			resources.WithCRDTSendTimeout(2*time.Second))
 	}
+	for i := 0; i < k.N; i++ {
+		if !late[i] {
+			start(i)
+		}
+	}
 	defer func() {
 		for _, c := range r.cl {
 			if c != nil {
@@ -548,11 +569,13 @@ func runCase(k kase) (res result) {
 			}
 		}
 		for _, n := range r.nodes {
-			resources.VerifCRDTShutdown(n)
+			if n != nil {
+				resources.VerifCRDTShutdown(n)
+			}
 		}
 	}()
 
-	payloadOracle := k.Type == "gcounter" || k.Type == "lww"
+	payloadOracle := (k.Type == "gcounter" || k.Type == "lww") && len(k.Late) == 0
 	lastc := make([]resources.CRDTValue, k.N) // stable state right after the node's last writing commit
 	recvd := make([][]resources.CRDTValue, k.N)
 	open := make([]bool, k.N)
@@ -679,6 +702,11 @@ func runCase(k kase) (res result) {
 					committedNow = true
 				}
 				done <- err
+			case "up":
+				if r.nodes[i] == nil {
+					start(i)
+				}
+				done <- nil
 			case "fin":
 				done <- nil
 			default:
